@@ -418,9 +418,9 @@ func sentinelError(g *ssa.Global) bool {
 type msgCopy struct {
 	Call   *ssa.Call
 	Src    ssa.Value
-	Helper *ssa.Function   // nil for a direct NewMessage
-	Inner  []*ssa.Call     // NewMessage calls inside Helper
-	Param  *ssa.Parameter  // the copied parameter of Helper
+	Helper *ssa.Function  // nil for a direct NewMessage
+	Inner  []*ssa.Call    // NewMessage calls inside Helper
+	Param  *ssa.Parameter // the copied parameter of Helper
 }
 
 func msgCopyOf(v ssa.Value, newMsg *ssa.Function) *msgCopy {
@@ -485,4 +485,74 @@ func msgCopyOf(v ssa.Value, newMsg *ssa.Function) *msgCopy {
 		return nil
 	}
 	return mc
+}
+
+// paramsNonEmpty decides whether every caller of exec passes, as its last argument, the result of
+// strings.Split / bytes.Split with a provably non-empty separator (such a result always has >= 1 element).
+func paramsNonEmpty(c *an.Ctx, exec *ssa.Function) (bool, string) {
+	users := usersOf(c, exec)
+	if len(users) == 0 {
+		return false, "no caller found"
+	}
+	nonEmptySep := func(v ssa.Value) bool {
+		v = an.Strip(v)
+		if s, ok := an.ConstString(v); ok {
+			return s != ""
+		}
+		if cv, ok := v.(*ssa.Convert); ok {
+			if s, ok := an.ConstString(cv.X); ok {
+				return s != ""
+			}
+		}
+		u, ok := v.(*ssa.UnOp)
+		if !ok || u.Op != token.MUL {
+			return false
+		}
+		g, ok := u.X.(*ssa.Global)
+		if !ok {
+			return false
+		}
+		// the global is assigned exactly once (its initialiser), from a non-empty constant
+		stores := 0
+		good := false
+		for fn := range c.P.AllFuncs() {
+			an.Instrs(fn, func(in ssa.Instruction) {
+				st, ok := in.(*ssa.Store)
+				if !ok || st.Addr != ssa.Value(g) {
+					if ia, ok := in.(*ssa.IndexAddr); ok {
+						if l, ok := ia.X.(*ssa.UnOp); ok && l.X == ssa.Value(g) {
+							for _, r := range an.Referrers(ia) {
+								if _, isSt := r.(*ssa.Store); isSt {
+									stores += 2
+								}
+							}
+						}
+					}
+					return
+				}
+				stores++
+				if s, ok := an.ConstString(an.Strip(st.Val)); ok && s != "" {
+					good = true
+				}
+			})
+		}
+		return stores == 1 && good
+	}
+	for name, in := range users {
+		ci, ok := in.(ssa.CallInstruction)
+		if !ok || !an.IsCallTo(ci, exec) {
+			return false, name + " uses it other than by a direct call"
+		}
+		args := ci.Common().Args
+		for _, o := range an.Origins(args[len(args)-1]) {
+			call, ok := o.(*ssa.Call)
+			if !ok || !(an.StdCallee(call, "strings", "Split") || an.StdCallee(call, "bytes", "Split")) {
+				return false, "in " + name + " the parameter list is not the result of strings.Split/bytes.Split (e.g. strings.Fields returns an empty list for a blank line)"
+			}
+			if !nonEmptySep(call.Call.Args[1]) {
+				return false, "in " + name + " the Split separator is not provably non-empty"
+			}
+		}
+	}
+	return true, ""
 }
